@@ -374,3 +374,22 @@ Fixpoint links_resolve_from (seen : list bytes) (ms : list member) : bool :=
     && links_resolve_from (if N.eqb (h_typeflag h) TypeReg then h_name h :: seen else seen) r
   end.
 Definition links_resolve (ms : list member) : bool := links_resolve_from [] ms.
+
+(* ---------- link groups of a (filtered) listing ----------
+   Two plain entries belong to the same hard-link group when they name the same source
+   (Hardlinks.orig_rep: the link name, or the own path for the entry the others name).  In a
+   view taken from a file system these are one inode: same type, same size, same bytes.  The
+   filters may drop any members of a group, also the one the others name. *)
+Definition same_group (a b : stat) : bool :=
+  hl_plain a && hl_plain b && bytes_eqb (orig_rep a) (orig_rep b).
+Definition group_types_agree (l : list entry) : bool :=
+  forallb (fun a => forallb (fun b =>
+    negb (same_group (fst a) (fst b))
+    || Bool.eqb (mode_is_regular (st_mode (fst a))) (mode_is_regular (st_mode (fst b)))) l) l.
+Definition group_contents_agree (l : list entry) : bool :=
+  forallb (fun a => forallb (fun b =>
+    negb (same_group (fst a) (fst b))
+    || (N.eqb (st_size (fst a)) (st_size (fst b)) && bytes_eqb (snd a) (snd b))) l) l.
+(* only regular files have bytes *)
+Definition no_content_unless_regular (l : list entry) : bool :=
+  forallb (fun e => mode_is_regular (st_mode (fst e)) || is_nil (snd e)) l.
